@@ -366,8 +366,10 @@ struct Logger : M::LoggerInterface {
 
 //------------------------------------------------------------------------------ API variants
 // Every id-taking operation of the library also exists as a template taking the state type.  Half of the
-// invocations (chosen by a deterministic tick, independent of the decisions) go through the typed form; the
-// specification does not distinguish them, so any difference shows up as a conformance mismatch / monitor finding.
+// invocations go through the typed form; the specification does not distinguish them, so any difference shows
+// up as a conformance mismatch / monitor finding.  The choice is a function of the instance's own history (number
+// of operations it has executed, invocations within the operation), so instances that are given the same calls
+// and decisions (lanes, copies) also use the same variants: what the user code does is part of the history.
 
 #ifndef VH_TYPED_MAX
 #define VH_TYPED_MAX 9
@@ -550,7 +552,7 @@ template <> struct Perform<2> {
 			// when the waiting request already carries this very token, every other time the user code forwards that request's own
 			// payload object (control.changeWith(d, *control.request().payload())): the argument then aliases the storage being replaced
 			const Pay* src = &fresh;
-			if (c.request() && c.request().payload() && tokOf(c.request().payload()) == a.p && (++g_aliasTick & 1u)) src = c.request().payload();
+			if (c.request() && c.request().payload() && tokOf(c.request().payload()) == a.p && (((++g_aliasTick) ^ g_apiTick) & 1u)) src = c.request().payload();
 			const Pay& pay = *src;
 			if (typedNow()) { F_changeWith<C> f = { c, pay }; typed(a.a, f); } else c.changeWith(static_cast<ffsm2::StateID>(a.a), pay);
 			return 0; }
@@ -727,6 +729,7 @@ struct Inst {
 	FSM::Instance* m = nullptr;
 	Ctx ctx { 7 };
 	bool loggerOn = false;
+	unsigned opCount = 0, ctorCount = 0;	// history counters that select the API variants (copied along with the machine)
 #if VH_LOG
 	Logger logger;
 #endif
@@ -810,8 +813,7 @@ static void construct(Inst& in, int fill, uint64_t fillSeed) {
 #if VH_LOG
 	M::LoggerInterface* lg = in.loggerOn ? &in.logger : nullptr;
 #endif
-	static unsigned ctorTick = 0;
-	const bool alt = (++ctorTick & 1u) != 0;		// every other construction goes through the alternative constructor / context set-up
+	const bool alt = (++in.ctorCount & 1u) != 0;		// every other construction goes through the alternative constructor / context set-up
 	(void) alt;
 #if VH_CTX == 0
 	#if VH_LOG
@@ -888,6 +890,8 @@ static bool execOp(int idx, const Op& o) {
 	Inst& in = *g_inst[idx];
 	if (!inContract(in, o)) return false;
 	g_curFsm = in.m; g_curId = in.id;
+	if (o.op != "attach") ++in.opCount;		// (lanes without logger skip attach operations and must stay in step)
+	g_apiTick = in.opCount * 7919u; g_aliasTick = 0;
 	const std::string& op = o.op;
 	const char* name = op.c_str();
 	long r = 0;
@@ -897,7 +901,7 @@ static bool execOp(int idx, const Op& o) {
 	else if (op == "copy" || op == "move") {
 		Inst* src = (o.a >= 0 && o.a < MAX_INST) ? g_inst[o.a] : nullptr;
 		if (src && src->m) {
-			in.ctx = src->ctx; in.loggerOn = src->loggerOn;
+			in.ctx = src->ctx; in.loggerOn = src->loggerOn; in.opCount = src->opCount; in.ctorCount = src->ctorCount;
 			std::memset(in.storage, 0x5C, sizeof in.storage);
 			g_curFsm = in.storage;
 #if VH_CTX != 2		// (the library's move constructor does not compile for reference contexts)
